@@ -123,9 +123,11 @@ CLAIMED = {
              "hypothesis: HKDF-Expand does not refuse 12/16/32-byte outputs), C03_quic_isolation (a datagram of another flow leaves a flow's QUIC sessions unchanged); truncation "
              "gives a prefix by C08_tls / C08_quic; TLS decrypt phase: C03_tls_replay_total (replaying a session's packets -- reassembly, record framing, hello parsing, key "
              "derivation, decryptor construction, decryption -- never raises, whatever the bytes), C03_tls_record_total; output phase: C03_records_have_carriers, C03_entries_keep_record, "
-             "C03_builder_total, C03_session_output_builds (OutputBuilder.build never raises on what a session exports). Closed under the global context. NOT proved: that "
-             "scapy's serialisation and the writer never raise (they do at 2^32 plaintext bytes per direction) and the prefix "
-             "claim for a packet lost in the middle: decided by the fault enumeration (thirteen fault kinds, crafted Initial datagrams and mismatched hellos included, on TLS and QUIC victims among "
+             "C03_builder_total, C03_session_output_builds (OutputBuilder.build never raises on what a session exports); loss: C03_loss_leaves_a_prefix (any selection of a "
+             "direction's segments, in any order with the first one first, releases a beginning of the records sent: a hole is never bridged, also when the joined neighbours would frame "
+             "again) and C03_session_loss (the same from Session.handle_packet to the record handler). Closed under the global context. NOT proved: that "
+             "scapy's serialisation and the writer never raise (they do at 2^32 plaintext bytes per direction) and that the handler's output for a beginning of a direction's "
+             "records is a beginning of its plaintext: decided by the fault enumeration (fifteen fault kinds, a loss that leaves the framing aligned and single missing key-log lines included, crafted Initial datagrams and mismatched hellos included, on TLS and QUIC victims among "
              "healthy bystanders) with byte-exact correspondence of the model including crash outcomes. One open finding (QUIC loss: subsequence, not prefix).",
         note="Trusted: Coq kernel; models tied by byte-exact correspondence on faulty captures; faults hit payloads and key logs, not the container or L2-L4 headers.",
         technique="Coq proof (flow projection, per-record case analysis, totality of the QUIC path with a termination measure) + fault enumeration with bystander comparison",
@@ -138,7 +140,7 @@ CLAIMED = {
              "datagrams in any interleaving: the sessions on q's address pair are exactly, keys, connection IDs, packet numbers and collected frames included, those obtained "
              "from q's datagrams alone, as long as the connection-ID pass never claims a datagram across the boundary of q's flow, i.e. no connection migration between the "
              "flows; C04_quic_one_datagram; via C08_quic_session_identity). Shared key log: C04_own_keylog_lines_tls / _quic (a session reads the key log only through the lines "
-             "with its own client random: other connections' lines added, removed or shuffled around them change nothing), C04_foreign_lines_anywhere. Closed under the global context. The check merges 2..6 TLS/QUIC connections in all endpoint arrangements the property lists and compares, frame for frame, with the solo exports.",
+             "with its own client random: other connections' lines added, removed or shuffled around them change nothing), C04_foreign_lines_anywhere; C04_zero_length_cid_identifies_nothing, C04_quic_empty_cids_respect, C04_stray_short_header_dropped (a zero-length connection ID claims no datagram; a short-header datagram that no session's addresses or connection IDs claim changes nothing). Closed under the global context. The check merges 2..6 TLS/QUIC connections in all endpoint arrangements the property lists and compares, frame for frame, with the solo exports.",
         note="Trusted: Coq kernel; models tied by byte-exact correspondence on interleaved captures; 4-tuple reuse excluded.",
         technique="Coq proof (projection of the TLS and of the QUIC session list onto a flow commutes with packet handling) + merged-vs-solo export comparison",
         design="3 C04"),
@@ -162,7 +164,10 @@ CLAIMED = {
              "+ u microseconds, a legacy record or if_tsoffset s with sub-second ticks, is s*10^6+u for every s <= 2^32-2) and C12_time_legacy (-l: microsecond and nanosecond "
              "legacy files and the microsecond pcapng give the same time); these five depend on the standard "
              "library's real-number and classical axioms (named in DESIGN.md I.5) through Flocq. NOT covered by a theorem: if_tsoffset with ticks of a second or more and instants "
-             "that are not whole microseconds (model against implementation on any ticks / resolution / offset), the byte layout of dpkt's legacy pcap reader; the check exports the same packets under seven "
+             "that are not whole microseconds (model against implementation on any ticks / resolution / offset). Legacy pcap (-l): C12_legacy_read_back / C12_legacy_byte_order over "
+             "Model/PcapLegacy.v (dpkt's pcap.Reader as main.run uses it) and the libpcap format of Spec/PcapLegacySpec.v: either byte order, micro- or nanosecond magic, any time zone / "
+             "accuracy / snap length / link type / original lengths -- exactly seconds, sub-second count and data of every packet (closed under the global context); that dpkt's reader is "
+             "that model is tied by correspondence on well-formed, cut, damaged and modified-pcap files. The check exports the same packets under seven "
              "resolutions, an offset, extra blocks, Packet Blocks, both byte orders and four legacy variants, with capture clocks before and after 2038, and requires "
              "byte-identical exports.",
         note="Trusted: Coq kernel; Spec/PcapngSpec.v as a transcription of the pcapng draft; the reader model tied to dpkt_dsb.Reader by correspondence on every generated file "
@@ -177,7 +182,8 @@ CLAIMED = {
              "exact duplicates, delivers exactly the records, in order), C05_session_dedupe (the session's duplicate memory is that machine), C05_handler_sees_trace and "
              "C05_directions_independent (the record handler sees exactly the extraction trace; each direction's part is what its own packets produce: interleaving is "
              "irrelevant), C05_reordering (the segments of a direction captured in ANY order -- any permutation, not only a bounded one -- that keeps the direction's first "
-             "data segment first deliver exactly the records, in order, nothing left buffered). Closed under the global context. The arrival orders that displace the "
+             "data segment first deliver exactly the records, in order, nothing left buffered), C05_any_arrivals_release_a_prefix (ANY sequence of arrivals drawn from the "
+             "segments -- lost, repeated, reordered, the first one first -- releases, after the duplicate memory, a beginning of the records). Closed under the global context. The arrival orders that displace the "
              "first data segment are the open finding first-segment-displaced (exhibited by the displacement sweep of the check on a real Session object).",
         note="Trusted: Coq kernel; hand-written reassembly model tied by correspondence (in-process records handed to handle_tls_record of a real Session; end-to-end output "
              "bytes under five segmentation schedules); streams < 2^31 bytes per direction; records well framed.",
@@ -237,7 +243,7 @@ CLAIMED = {
              "hex digits give the same key), C09_order_and_duplicates_tls13 / C09_order_and_duplicates_quic (the derivations take the last line per label: two logs with the same "
              "lines in any order and with any repetitions, each label's lines agreeing, give the same keys), C09_first_line / C09_duplicates_first_line (TLS <= 1.2 uses the "
              "first line of the connection), C09_blocks_in_front (secrets in one or several decryption-secrets blocks in front of the packets = the same secrets in a file, "
-             "for any traffic, also as the only source), C09_blocks_anywhere_tls (for TLS over TCP the blocks may stand anywhere). Closed under the global context. The text "
+             "for any traffic, also as the only source), C09_blocks_anywhere_tls (for TLS over TCP the blocks may stand anywhere), C09_split_over_blocks (the log split at line boundaries over any number of block texts, unterminated, LF or CRLF: text by text the keys of the whole log). Closed under the global context. The text "
              "model is tied to the code by correspondence on structured and near-miss texts; ten ways of supplying the same secrets must give byte-identical exports.",
         note="Trusted: Coq kernel; the key-log model reads bytes (bytes >= 0x80, which the code decodes to replacement characters, match nothing: tied by correspondence); pcapng block framing of DSBs is C12's reader model; open()/decode and working-directory independence are exercised "
              "by the check only.",
